@@ -55,12 +55,11 @@ def run(ctx):
     log("  behaviours: %d; second-restart-after-torn-tail histories: %d; step kinds: %d" % (len(behs), f1, len(acts)))
     if f1 == 0:
         raise Infra("no generated behaviour contains the history torn tail -> restart -> acknowledged write -> restart")
-    done = te.replay_and_judge(ctx, behs, "replay")
-    sc = te.scenarios(ctx)
+    done = te.replay_and_judge(ctx, behs, "replay", scenarios=True)
     extra = {"replayed_behaviours": done.get("behaviours", 0), "replayed_steps": done.get("steps", 0),
              "crash_images": done.get("crash_images", 0), "crash_images_recovered": done.get("crash_images_recovered", 0),
              "tainted_model_drift": done.get("tainted_model_drift", 0),
-             "torn_tail_second_restart_histories": f1, "scenarios": sc.get("scenarios", 0), "step_kinds": acts}
+             "torn_tail_second_restart_histories": f1, "scenarios": done.get("scenarios", 0), "step_kinds": acts}
     return ctx.finish("model_checking", extra, assumptions=[
         "crash model: process death at a durable step (verif hooks + FileStoreObserver) plus any truncation of the WAL entry that was being synced; "
         "a crash image is a copy of the store directory (page-cache state), so loss of written-but-unsynced data other than the WAL tail is not modelled",
